@@ -8,6 +8,7 @@ use crate::verif_spec as spec;
 // @harness c15_host_cluster
 // @props C15 C08 C03 C02
 // @tier quick
+// @cost 39
 // @timeout 600
 // @desc every method of HostCluster on the geometry derived by the real Qcow2Info::new: rt_index / rb_index equal the spec's refcount index formulas; slice key / index / byte offset are quotient / remainder by the slice length; the slice host range is [start, start + slice_entries*cluster_size), aligned, contains the cluster, lies inside the refblock's host range; cluster_off_from_slice is the inverse of rb_slice_index
 // @bounds host offset: all u64 < 2^63; cluster_bits 9..=21, refcount_order 0..=6, slice bits block..cluster all symbolic
